@@ -6,6 +6,7 @@ package main
 // and falls through to the next solver.
 
 import (
+	"os"
 	"bufio"
 	"fmt"
 	"io"
@@ -208,8 +209,21 @@ func (p *proc) check(asserts []*Term, vars []*Term) (Result, Model, string) {
 	for _, a := range asserts {
 		fmt.Fprintf(&sb, "(assert %s)\n", a.ref())
 	}
-	sb.WriteString("(check-sat)\n(echo \"ZZDONE\")\n")
+	// z3 switches to a much slower incremental core after the first push/pop; an explicit
+	// tactic restores the bit-blasting pipeline (probe: CRC step 9 s -> 0.26 s)
+	switch {
+	case strings.HasPrefix(p.name, "z3") && hasFPTerm(asserts):
+		sb.WriteString("(check-sat-using qffpbv)\n(echo \"ZZDONE\")\n")
+	case strings.HasPrefix(p.name, "z3"):
+		sb.WriteString("(check-sat-using qfbv)\n(echo \"ZZDONE\")\n")
+	default:
+		sb.WriteString("(check-sat)\n(echo \"ZZDONE\")\n")
+	}
 	t0 := time.Now()
+	if d := os.Getenv("GOSYM_DUMP"); d != "" {
+		n := atomic.AddInt64(&solverSeq, 1)
+		os.WriteFile(fmt.Sprintf("%s/q%05d-%s.smt2", d, n, p.name), []byte(sb.String()), 0644)
+	}
 	if _, err := io.WriteString(p.in, sb.String()); err != nil {
 		p.kill()
 		return Unknown, nil, "write: " + err.Error()
@@ -383,4 +397,13 @@ func (s *Solvers) Check(asserts []*Term, wantModel bool) (Result, Model, string)
 	}
 	s.stats.Unknowns++
 	return Unknown, nil, why
+}
+
+func hasFPTerm(ts []*Term) bool {
+	for _, t := range ts {
+		if t.hasFP {
+			return true
+		}
+	}
+	return false
 }
